@@ -239,7 +239,7 @@ def needs_bilb1(fmt):
 
 
 def gen_c10_cases(rng, tier):
-    for fmt in ALL_FMTS:
+    for fmt in ALL_FMTS * (1 if tier == 'quick' else 3):       # thorough: three rounds with fresh neighbours / block sizes
         probes = c10_probes(rng, fmt)
         if tier == 'quick' and fmt not in BYTE_FMTS:
             probes = [p for p in probes if rng.random() < 0.3]
@@ -360,7 +360,7 @@ FILTERS = ['gzip', 'bzip2', 'xz', 'zstd', 'lz4', 'compress', 'uuencode', 'b64enc
 
 
 def gen_c02_cases(rng, tier):
-    per = {'quick': 18, 'thorough': 160}[tier]
+    per = {'quick': 18, 'thorough': 400}[tier]
     for fmt in ALL_FMTS:
         n = per * (3 if fmt in BYTE_FMTS else 1)
         for i in range(n):
